@@ -27,6 +27,8 @@ def shards(tier, seed):
     nmax = 5 if tier == 'quick' else 6
     ret = [{'name': f'subsets-n{n}', 'n': n} for n in range(1, nmax + 1)]
     ret += [{'name': 'circuits'}, {'name': 'corner'}]
+    if tier == 'thorough':
+        ret.append({'name': 'repo-tests'})
     return ret
 
 
@@ -336,3 +338,6 @@ def run(ctx, shard):
         run_circuits(ctx, numqi, st)
     elif name == 'corner':
         run_corner(ctx, numqi, st)
+    elif name == 'repo-tests':
+        from vmon.repotests import run_repo_tests
+        run_repo_tests(ctx, ['tests_sim/test_sim_state.py', 'tests_sim/test_sim_circuit.py'])
